@@ -516,6 +516,8 @@ func (s *client) GetVBucketSeqNos(awareCollection bool) (*wrapper.ConcurrentSwis
 						}
 					}
 
+					ch := make(chan error, 1)
+
 					op, err := s.dcpAgent.GetVbucketSeqnos(
 						i, memd.VbucketStateActive, opts,
 						func(entries []gocbcore.VbSeqNoEntry, err error) {
@@ -526,12 +528,20 @@ func (s *client) GetVBucketSeqNos(awareCollection bool) (*wrapper.ConcurrentSwis
 							}
 
 							opm.Resolve()
+
+							ch <- err
 						},
 					)
 					if err != nil {
 						return err
 					}
-					return opm.Wait(op, err)
+
+					err = opm.Wait(op, err)
+					if err != nil {
+						return err
+					}
+
+					return <-ch
 				}
 			}(i, j))
 		}
